@@ -546,14 +546,13 @@ func allSubsets() []int {
 	return s
 }
 
-// coreSubsets: every subset of {own index, own name, ALL}, alone, with every neighbour kind
-// registered, and with each single neighbour kind.
+// coreSubsets: every subset of {own index, own name, ALL}, alone and with every neighbour kind
+// registered.
 func coreSubsets() []int {
 	const own = 1<<kIdxOwn | 1<<kNameOwn | 1<<kALL
 	var out []int
 	for s := 0; s < 256; s++ {
-		neigh := s &^ own
-		if neigh == 0 || neigh == 0xff&^own || neigh&(neigh-1) == 0 {
+		if neigh := s &^ own; neigh == 0 || neigh == 0xff&^own {
 			out = append(out, s)
 		}
 	}
@@ -602,26 +601,33 @@ func genVia(t *rapid.T) VCase {
 const ruleVia = "the decision table (oracle as in 'table': last index registration for the exact application/code/R bit, else last registration of the dictionary short name + R/A, else last catch-all, else no handler and one error report) through a dispatcher kind: mux-conn = a bare ServeMux serving an in-memory connection, sm-direct = a sm.StateMachine whose ServeDIAM is called in process with an acceptable CER and then with the message, sm-server = a sm.StateMachine serving an in-memory connection on which the peer completes CER/CEA first, sm-client = a sm.StateMachine behind sm.Client.NewConn whose CER the peer answers with a success CEA; handlers registered through the dispatcher's own Handle / HandleFunc / HandleIdx before the connection exists or after the exchange, reports read from the dispatcher's own ErrorReports() and emptied after every step (steps run one at a time: the harness waits for the reader to park); CER/CEA/DWR/DWA keys are kept out of messages and registrations on a state machine; "
 
 var (
-	propViaTable  = ev.Register(&ev.Prop[VCase]{ID: "C09", Name: "table-dispatchers", Rule: ruleVia + "EXHAUSTIVE over dict.Default for sm-direct: every resolvable (application, command) as in 'table' x R/A x every subset of the 8 registration kinds; for the three connection kinds: the same messages (directions the dictionary lists AVP rules for) x every subset of {own index, own name, ALL} alone, with all five neighbour kinds and with each single one (quick) / every subset (thorough); non-trivial = at least two of {own index, own name, ALL} registered", Run: runVia, Classify: classifyVia, Hash: hashVia})
+	propViaTable  = ev.Register(&ev.Prop[VCase]{ID: "C09", Name: "table-dispatchers", Rule: ruleVia + "EXHAUSTIVE over dict.Default for sm-direct: every resolvable (application, command) as in 'table' x R/A x every subset of the 8 registration kinds; for the three connection kinds: the same messages (directions the dictionary lists AVP rules for) x every subset of {own index, own name, ALL} alone and with all five neighbour kinds (quick) / every subset (thorough); non-trivial = at least two of {own index, own name, ALL} registered", Run: runVia, Classify: classifyVia, Hash: hashVia})
 	propViaRandom = ev.Register(&ev.Prop[VCase]{ID: "C09", Name: "random-dispatchers", Rule: ruleVia + "random: a case of 'random' (embedded and generated dictionaries, neighbour keys, 1-3 registrations per kind in random order, other flag bits) through a random dispatcher kind; generated dictionaries go through mux-conn only (a state machine needs the base dictionary's CER)", Gen: genVia, Run: runVia, Classify: classifyVia, Hash: hashVia})
 )
 
 func TestC09TableDispatchers(t *testing.T) {
 	counts := map[string]int{}
 	propViaTable.Enumerate(t, true, func(yield func(VCase) bool) {
+		stopped := false
 		for _, via := range viaKinds {
 			subsets := allSubsets()
 			if via != viaSMDirect && !ev.Thorough() {
 				subsets = coreSubsets()
 			}
-			counts[via] = enumerateVia(defaultDict, via, subsets, func(i int) bool { return i%3 == 2 }, yield)
+			counts[via] = enumerateVia(defaultDict, via, subsets, func(i int) bool { return i%3 == 2 }, func(c VCase) bool {
+				stopped = stopped || !yield(c)
+				return !stopped
+			})
+			if stopped {
+				return
+			}
 		}
 	})
 	if t.Failed() {
 		return
 	}
 	for _, via := range viaKinds {
-		if counts[via] < 1000 {
+		if counts[via] < 800 {
 			t.Fatalf("harness: only %d cases enumerated for dispatcher kind %s", counts[via], via)
 		}
 	}
